@@ -215,7 +215,21 @@ class Exec(ExprMixin, CallMixin):
         """End of a segment that stops inside the function: end_ensures must hold in every state that falls through."""
         c, eng = self.c, self.eng
         if out.rets:
-            raise Unsupported('return inside a segment that stops before the end of the function')
+            # early returns inside the segment are exits of the function: they answer to its ordinary ensures
+            if c.start_after_loop is not None:
+                raise Unsupported('return inside a segment that neither starts at the top nor runs to the end of the function')
+            rt = eng.ptype(c.returns)
+            for st, val, ordn in out.rets:
+                val = none_sv() if val is None else val
+                res = SV(T.Opaque, z3.IntVal(0)) if isinstance(rt, T._Opaque) else (coerce(val, rt) if not isinstance(rt, T._None) else val)
+                env = {k: v for k, v in self.entry.locals.items() if v is not None}
+                env['result'] = res
+                for i, e in enumerate(c.ensures):
+                    o = eng.obl('post', 'ensures#%d' % i, e)
+                    o.add(st.hyps(), self.spec_eval(e, st, env), 'return#%s' % ordn)
+                if not c.ensures:
+                    o = eng.obl('post', 'returns', 'early return of the segment')
+                    o.add(st.hyps(), z3.BoolVal(True), 'return#%s' % ordn)
         if not out.normals:
             raise Unsupported('segment has no fall-through state')
         cov = eng.obl('cover', 'exit', 'end of segment reachable')
@@ -959,7 +973,10 @@ class Exec(ExprMixin, CallMixin):
         f = call.func
         src = ast.unparse(f)
         if src in self.c.calls:
-            return P.contracts[self.c.calls[src]]
+            tgt = self.c.calls[src]
+            if isinstance(tgt, (list, tuple)):
+                return Contract_union([P.contracts[x] for x in tgt])
+            return P.contracts[tgt]
         if isinstance(f, ast.Name) and f.id in P.contracts:
             return P.contracts[f.id]
         if isinstance(f, ast.Attribute):
